@@ -246,7 +246,7 @@ Definition op_mul (a b : jsnum) : jsnum :=
   let a := toNumeric a in let b := toNumeric b in
   match both_int a b with
   | Some (x, y) =>
-      if ((x =? 0) && (y =? -1)) || ((x =? -1) && (y =? 0)) then NFlt fnegzero
+      if ((x =? 0) && (y <? 0)) || ((x <? 0) && (y =? 0)) then NFlt fnegzero      (* since fix a06b77f *)
       else
         let res := wrap64 (x * y) in
         if (x =? 0) || (y =? 0) || (wrap64 (Z.quot res x) =? y) then intToValue res
